@@ -357,6 +357,27 @@ pub fn run(ctx: &mut Ctx) {
             }
         }
     }
+    // the single exception is about arrays WRITTEN in the rule: a collection that is data - however it is
+    // fetched (whole data by "", null, [] or no operand; a named field; the current element of an outer
+    // iteration) - holds values, and operation-shaped values among them are not evaluated
+    if ctx.mine() {
+        let whole = [json!({"var": ""}), json!({"var": null}), json!({"var": []}), json!({"var": [""]}), json!({"var": [null, "dflt"]})];
+        let datas = [json!([{"var": "a"}]), json!([{"+": ["x"]}, 1]), json!([{"log": "LEAK"}]), json!([[{"var": "a"}], {"cat": ["x", "y"]}, "xy"])];
+        let preds = [json!({"!==": [{"var": ""}, null]}), json!({"===": [{"var": ""}, "xy"]}), json!(true), json!({"var": "var"})];
+        for w in &whole {
+            for d in &datas {
+                for p in &preds {
+                    ctx.edge();
+                    for k in ["all", "some", "none", "map", "filter"] {
+                        ctx.check("data-collection:whole-data", &op(k, vec![w.clone(), p.clone()]), d);
+                    }
+                    // the same collection as the current element of an outer iteration
+                    ctx.check("data-collection:outer-element", &json!({"map": [{"var": "rows"}, {"some": [w, p]}]}), &json!({"rows": [d, ["xy"], [1]]}));
+                    ctx.check("data-collection:outer-element", &json!({"filter": [{"var": "rows"}, {"all": [w, p]}]}), &json!({"rows": [d, ["xy"], [1]]}));
+                }
+            }
+        }
+    }
     // dispatch side at large operand counts (8- and 16-bit count boundaries included): the operator is
     // still found and still sees every operand
     {
